@@ -542,6 +542,7 @@ func c17Case(o *Out, r *Rng, set *sSet, sdl string, strategy string, tops []*iTo
 func init() {
 	props["C17"] = func(o *Out, rng *Rng, tier string) {
 		c17RegisterField(o)
+		c17AfterRefusedLoad(o)
 		rounds := 40
 		if tier == "thorough" {
 			rounds = 1500
@@ -669,5 +670,49 @@ func c17RegisterField(o *Out) {
 		o.Count("RegisterField calls")
 		o.Emit(Case{Term: N("c17r", S(strings.Join(args, " "))), Obs: N("obs", B(before == after)),
 			Meta: map[string]interface{}{"call": fmt.Sprintf("RegisterField(Query, a, A, %v)", args), "error": es, "args_before": before, "args_after": after}, Nontrivial: true})
+	}
+}
+
+// ---- introspection after a refused load --------------------------------------------------------------
+//
+// "For every accepted schema … describe exactly that schema": the accepted schema is what the accepted loads
+// defined, whatever refused loads came in between.  Fixed histories, every run; the answer must equal that of a
+// root that only ever saw the accepted loads.
+
+func c17AfterRefusedLoad(o *Out) {
+	const q = `{ __schema { types { name kind possibleTypes { name } interfaces { name } fields { name } enumValues { name } } mutationType { name } } node: __type(name: "Node") { possibleTypes { name } } ghost: __type(name: "Ghost") { name } }`
+	for _, h := range []struct {
+		name     string
+		accepted []string
+		refused  string // loaded (and refused) after the accepted loads
+	}{
+		{"new implementer in a refused load", []string{"interface Node { id: ID }\ntype Song implements Node { id: ID }\ntype Query { n: Node }", "type Album implements Node { id: ID }"},
+			"type Ghost implements Node { id: ID }\ntype Empty { }"},
+		{"extend … implements in a refused load", []string{"interface Node { id: ID }\ntype Song implements Node { id: ID }\ntype Plain { id: ID }\ntype Query { n: Node p: Plain }"},
+			"extend type Plain implements Node { extra: Int }\ntype Empty { }"},
+		{"union member and enum value in a refused load", []string{"type A { x: Int }\ntype B { y: Int }\nunion U = A\nenum E { ONE }\ntype Query { u: U e: E }"},
+			"extend union U = B\nextend enum E { TWO }\ntype Empty { }"},
+	} {
+		root, control := newLoadRoot(), newLoadRoot()
+		refusedErr := ""
+		for _, doc := range h.accepted {
+			if err := safeParse(root, doc); err != nil {
+				panic("c17 history: " + err.Error())
+			}
+			if err := safeParse(control, doc); err != nil {
+				panic("c17 history: " + err.Error())
+			}
+		}
+		if err := safeParse(root, h.refused); err != nil {
+			refusedErr = err.Error()
+		}
+		if refusedErr == "" {
+			o.Count("refused-load-accepted")
+			continue
+		}
+		got, want := canon(safeResolve(root, q, "", nil)), canon(safeResolve(control, q, "", nil))
+		o.Count("introspection after a refused load")
+		o.Emit(Case{Term: N("c17r", S("refused load: "+h.name)), Obs: N("obs", B(got == want)),
+			Meta: map[string]interface{}{"history": h.name, "refused": h.refused, "error": refusedErr, "answer": got, "expected": want}, Nontrivial: true})
 	}
 }
